@@ -29,6 +29,19 @@ ending in two newlines has an empty last LINE (it is a line: `realLines` counts 
 is the empty text: it has no line but still one empty piece, so key 1 is removed iff the line or
 start marker matches the empty string (`C16_empty_file`); hence the statement over ALL texts is
 still false by exactly that case (`C16_only_real_lines_false`).
+Parts. `Props/C16Run.lean`: the markers in a whole run (`Cli.RunAll.run`, tied to the real binary byte
+for byte). `Props/C16Filter.lean`: the markers and `--filter covered|uncovered` – the decision is taken
+on the record AFTER exclusion (`C16_then_filter*`, review 2 item 7) – and the wiring of the three
+`--excl-br-*` options, which does not look at `--branch` (`C16_main_branch_flag_irrelevant`,
+`C16_run_jacoco_branch_flag_irrelevant`: JaCoCo reports carry branch data with and without it);
+the documentation observation of review item 36 (stop line "part of this section") is recorded there.
+Specification vocabulary (review 2 item 33): `lineAt`, `Marks`, `inRegion`, `lineMarker` … `inBrRegion`,
+`removesLine`, `removesBranch`, `lineDim`, `brDim` occur in the statements and are run by no driver op –
+on purpose: they are the property text written down (quantifier form), not mirrors of Rust code. Their
+independent counterpart in the harness is `spec_of` / `in_region` (harness/c16/src/main.rs), evaluated on
+the implementation's own output for every case. Every executable mirror of the code (`create`, `scan`,
+`emit`, `applyFilters`, `rewrite`, `splitSrc`, `stripCR`, `createSrc`, `realLines`, `thenFilter`) is a
+driver op of `gm_c16`.
 History: on the tree before /repo commit c7806a2 the first three were false (a single-line marker
 on a line lying only in a region of the other kind was ignored: the region flags were tested
 first and the single-line markers were an `else` of both flags). `witnessA` / `witnessB` below
@@ -37,6 +50,7 @@ harness.
 -/
 import GrcovModel.Lemmas.FileFilter
 import GrcovModel.Props.C16Run
+import GrcovModel.Props.C16Filter
 namespace Grcov.Props.C16
 open Grcov AList Grcov.FileFilter
 
